@@ -62,14 +62,14 @@ theorem linesearch_accept_descent (force : Bool) (β lstol cψ ch cpTp cγ cg cL
       panoc_fbe cψ ch cpTp cγ cg - β * (1 - cγ * cL) / (2 * cγ) * cpTp +
         (1 + |panoc_fbe cψ ch cpTp cγ cg|) * lstol := by
   unfold panoc_linesearchViolated at h
-  simp only [hf, Bool.false_eq_true, if_false, decide_eq_false_iff_not, not_lt, eabs_eq_abs] at h
+  simp only [hf, Bool.false_eq_true, if_false, Bool.not_eq_false', decide_eq_true_eq, eabs_eq_abs] at h
   exact h
 
 /-- **QUB acceptance ⇒ quadratic upper bound** `ψ(x̂) ≤ ψ(x) + ∇ψᵀp + (L/2)‖p‖² + (1+|ψ(x)|)·qub_tol`. -/
 theorem qub_accept (tol ψ ψh g L pTp : α) (h : panoc_qubViolated tol ψ ψh g L pTp = false) :
     ψh ≤ ψ + g + L / 2 * pTp + (1 + |ψ|) * tol := by
   unfold panoc_qubViolated at h
-  simp only [decide_eq_false_iff_not, not_lt, eabs_eq_abs] at h
+  simp only [Bool.not_eq_false', decide_eq_true_eq, eabs_eq_abs] at h
   have e : (0.5 : α) = 1 / 2 := by norm_num
   rw [e] at h
   have e2 : 1 / 2 * L * pTp = L / 2 * pTp := by ring
